@@ -371,7 +371,7 @@ theorem withCgFinish_good {cg : Val} {m m2 : M} {r : Res} (hs : Same m m2) (hr :
   | err m1 => exact hs.toExt.trans hr
   | crash w m1 => exact hs.ctxs.symm.trans hr
 
-theorem loadFinish_good {m m2 : M} {r : Res} (hs : Same m m2) (hr : Good m2 r) : Good m (loadFinish r) := by
+theorem loadFinish_good {cg : Val} {m m2 : M} {r : Res} (hs : Same m m2) (hr : Good m2 r) : Good m (loadFinish cg r) := by
   cases r with
   | ok m1 => exact hs.trans ⟨hr.vs, hr.cs, hr.ctxs⟩
   | err m1 => exact hs.toExt.trans hr
